@@ -137,7 +137,7 @@ def monC05 (_g : Ghost) (o : Obs) : List String :=
   | _, _ => []
 
 /-! C06: an entry of age ≥ ttl is never served and is purged on access; a younger one is served. -/
-def monC06 (_g : Ghost) (o : Obs) : List String :=
+def monC06core (o : Obs) : List String :=
   match o.op, o.cfg.ttl with
   | .get k, some t =>
     match lookup k o.pre.store with
@@ -159,6 +159,23 @@ def monC06 (_g : Ghost) (o : Obs) : List String :=
         | .val (some v) => if v = e.val then [] else [s!"entry {k} served {v.id}, stored {e.val.id}"]
         | _ => if young then [s!"entry {k} of age {age} ms not served with ttl {t}"] else []
   | _, _ => []
+
+/-- an entry's age is the time since it was STORED: no operation other than a store of that key (or a time
+    step) may change it — otherwise "age ≥ ttl" would not mean what the property says -/
+def monC06birth (o : Obs) : List String :=
+  match o.op with
+  | .tick _ => []
+  | _ =>
+    let storedK := (storedKey o.op).map (·.1)
+    o.post.store.filterMap (fun (k, e) =>
+      if some k = storedK then none else
+      match lookup k o.pre.store with
+      | none => none
+      | some e0 =>
+        if ageMs o o.post e = ageMs o o.pre e0 then none
+        else some s!"the age of entry {k} changed from {ageMs o o.pre e0} to {ageMs o o.post e} ms without a store of {k}")
+
+def monC06 (_g : Ghost) (o : Obs) : List String := monC06core o ++ (if o.cfg.ttl.isSome then monC06birth o else [])
 
 /-! C07: FIFO evicts the oldest store, LRU the least recently used (entry limit or memory pressure). -/
 def stampOf (stamps : List (String × Nat)) (k : String) : Nat := (alookup k stamps).getD 0
@@ -216,7 +233,18 @@ def monC08 (g : Ghost) (o : Obs) : List String :=
   let check (k : String) : List String :=
       let isAsync := o.cfg.flavour = .async
       -- candidates at eviction time, in recency order (front = least recent), with hits and age
-      let q0 := if isAsync then o.pre.queue.filter (fun x => x ≠ k) else o.pre.queue.erase k ++ [k]
+      -- recency order (front = least recently used).  Async engines: from the GHOST history (latest store or
+      -- successful lookup), not from the implementation's own queue — a queue that was silently permuted must
+      -- not be trusted as the documented recency rank.  Sync engines: the newcomer competes with score 0.
+      let byUse (l : List String) : List String :=
+        l.foldl (fun acc x =>
+          let rec ins : List String → List String
+            | [] => [x]
+            | y :: ys => if stampOf g.useStamp x < stampOf g.useStamp y then x :: y :: ys else y :: ins ys
+          ins acc) []
+      let q0 := if isAsync then
+          (if pol = .lfu then o.pre.queue.filter (fun x => x ≠ k) else byUse (o.pre.queue.filter (fun x => x ≠ k)))
+        else o.pre.queue.erase k ++ [k]
       let candHits (x : String) : Nat :=
         if x = k && !isAsync then 0 else ((lookup x o.pre.store).map (·.hits)).getD 0
       let candAge (x : String) : Nat :=
